@@ -52,7 +52,7 @@ package nbio
 //@ func (*Conn).releaseToWrite
 //@   props C11 C01
 //@   safety index slice nil div assert panic make
-//@   requires Wired(c) && t != nil && (t.buf != nil ==> liveP[t.buf])
+//@   requires c.p != nil && c.p.g != nil && c.p.g.Config.BodyAllocator != nil && t != nil && (t.buf != nil ==> liveP[t.buf])
 //@   ensures freed: t.buf != nil ==> !liveP[t.buf]                                          // prop C11
 //@   ensures others: forall q int :: q != t.buf ==> liveP[q] == old(liveP[q])               // prop C11
 //@   assigns liveP
@@ -119,6 +119,8 @@ package nbio
 //@ moninv queue: !self.closed ==> QueueInv(self)                                          // prop C01 C11 C17
 //@ moninv acct: !self.closed ==> self.gAcc == kSent[self.fd] + pend(self)                 // prop C01
 //@ moninv arm: !self.closed ==> ArmInv(self)                                             // prop C04
+//@ moninv mono: self.gClosedAtLock ==> self.closed                                       // prop C03
+//@ moninv nop: self.p == nil ==> self.writeList == nil                                   // prop C03
 //@ moninv bound: !self.closed && self.p != nil && self.p.g != nil && maxw(self) > 0 ==> self.left <= maxw(self)   // prop C17
 
 // ---- write interest (C04): the flag the library keeps must agree with what epoll has, and a backlog needs it armed
@@ -183,20 +185,16 @@ package nbio
 //@   ensures unreg: old(kEv[c.fd]) < 0 ==> kEv[c.fd] == old(kEv[c.fd])                                                                    // prop C04
 //@   assigns c.isWAdded, kEv[c.fd], kMods[c.fd], allocates
 
-//@ func (*Conn).closeWithErrorWithoutLock
-//@   trusted
-//@   havoc
-//@   requires c.closed
-//@   ensures c.closed
-//@   note teardown runs user callbacks (OnClose): they reach connection state only through its methods, and no method clears the closed flag
-
 //@ func (*Conn).Write
-//@   props C01 C17 C04
+//@   props C01 C17 C04 C03
 //@   safety index slice nil div assert panic make lock lockset
-//@   requires Wired(c) && isStream(c) && !holds(c.mux)
+//@   requires Wired(c) && isStream(c) && !holds(c.mux) && Registered(c) && !c.gTok
 //@   ensures ret: result1 == nil ==> result0 == len(b)                                     // prop C01
 //@   ensures unlocked: !holds(c.mux)                                                        // prop C01
+//@   ensures afterclose: c.gClosedAtLock ==> result1 == net.ErrClosed && kSent[c.fd] == c.gSentSnap    // prop C03
 //@   assigns everything
+//@   at lock#1 ghost { c.gClosedAtLock = c.closed; c.gSentSnap = kSent[c.fd] }
+//@   at before:closeWithErrorWithoutLock#1 ghost { c.gTok = !c.gClosedAtLock && c.closed }
 //@   at unlock#3 ghost { c.gAcc = c.gAcc + ite(err == nil, n, 0) }
 
 // ---- total length of a list of buffers: sumlen(row(in), off(in), k) = len(in[0]) + ... + len(in[k-1])
@@ -268,41 +266,47 @@ package nbio
 //@     decreases v.remain
 
 //@ func (*Conn).flush
-//@   props C01 C17 C11 C04
+//@   props C01 C17 C11 C04 C03
 //@   safety index slice nil div assert panic make lock lockset
-//@   requires Wired(c) && isStream(c) && !holds(c.mux)
+//@   requires Wired(c) && isStream(c) && !holds(c.mux) && Registered(c) && !c.gTok
 //@   ensures unlocked: !holds(c.mux)                                                      // prop C01
 //@   ensures rearm: cfgOneshot(c.p.g) && c.gSawQ && !c.closed ==> kMods[c.fd] > c.gMods0   // prop C04
 //@   assigns everything
-//@   at lock#1 ghost { c.gMods0 = kMods[c.fd]; c.gSawQ = !c.closed && len(c.writeList) > 0 && kEv[c.fd] >= 0 }
+//@   at lock#1 ghost { c.gClosedAtLock = c.closed; c.gMods0 = kMods[c.fd]; c.gSawQ = !c.closed && len(c.writeList) > 0 && kEv[c.fd] >= 0 }
+//@   at before:closeWithErrorWithoutLock#1 ghost { c.gTok = !c.gClosedAtLock && c.closed }
 //@   loop 1
-//@     invariant holds(c.mux) && !c.closed && Wired(c) && isStream(c) && QueueInv(c) && c.gAcc == kSent[c.fd] + pend(c)
+//@     invariant holds(c.mux) && !c.closed && !c.gClosedAtLock && Wired(c) && isStream(c) && QueueInv(c) && c.gAcc == kSent[c.fd] + pend(c)
 //@     invariant maxw(c) > 0 ==> c.left <= maxw(c)
 //@     invariant ArmInv(c) && kMods[c.fd] == c.gMods0 && (c.gSawQ ==> kEv[c.fd] >= 0 && c.isWAdded)
 
 //@ func (*Conn).Writev
-//@   props C01 C17 C04
+//@   props C01 C17 C04 C03
 //@   safety index slice nil div assert panic make lock lockset
-//@   requires Wired(c) && isStream(c) && !holds(c.mux)
+//@   requires Wired(c) && isStream(c) && !holds(c.mux) && Registered(c) && !c.gTok
 //@   ensures ret: result1 == nil ==> result0 == total(in)                                  // prop C01
 //@   ensures unlocked: !holds(c.mux)                                                        // prop C01
+//@   ensures afterclose: c.gClosedAtLock ==> result1 == net.ErrClosed && kSent[c.fd] == c.gSentSnap    // prop C03
 //@   assigns everything
+//@   at lock#1 ghost { c.gClosedAtLock = c.closed; c.gSentSnap = kSent[c.fd] }
+//@   at before:closeWithErrorWithoutLock#1 ghost { c.gTok = !c.gClosedAtLock && c.closed }
 //@   at lock#1 assert hint: sumlen(row(in), off(in), 0) == 0
 //@   at unlock#3 ghost { c.gAcc = c.gAcc + ite(err == nil, n, 0) }
 
 // ---- Sendfile: what the call reports as accepted is what it handed to the kernel plus what it queued
-//@ ghost Conn.gSnap : Int
-//@ ghost Conn.gMods0 : Int
-//@ ghost Conn.gSawQ : Bool
+//@ ghost local Conn.gSnap : Int
+//@ ghost local Conn.gMods0 : Int
+//@ ghost local Conn.gSawQ : Bool
 //@ func (*Conn).Sendfile
-//@   props C01 C17 C04
+//@   props C01 C17 C04 C03
 //@   safety index slice nil div assert panic make lock lockset
-//@   requires Wired(c) && isStream(c) && !holds(c.mux)
+//@   requires Wired(c) && isStream(c) && !holds(c.mux) && Registered(c) && !c.gTok
 //@   ensures ret: result1 == nil && f != nil ==> result0 == c.gAcc - c.gSnap               // prop C01
 //@   ensures errret: result1 != nil && !c.closed ==> result0 == c.gAcc - c.gSnap            // prop C01
 //@   ensures unlocked: !holds(c.mux)                                                        // prop C01
+//@   ensures afterclose: f != nil && c.gClosedAtLock ==> result1 == net.ErrClosed && kSent[c.fd] == c.gSentSnap    // prop C03
 //@   assigns everything
-//@   at lock#1 ghost { c.gSnap = c.gAcc }
+//@   at lock#1 ghost { c.gSnap = c.gAcc; c.gClosedAtLock = c.closed; c.gSentSnap = kSent[c.fd] }
+//@   at before:closeWithErrorWithoutLock#1 ghost { c.gTok = !c.gClosedAtLock && c.closed }
 //@   at call:newToWriteFile#1 ghost { c.gAcc = c.gAcc + remain }
 //@   at call:Sendfile#1 ghost { c.gAcc = c.gAcc + ite(written > 0, written, 0) }
 //@   at call:newToWriteFile#2 ghost { c.gAcc = c.gAcc + remain }
@@ -318,27 +322,21 @@ package nbio
 //@   havoc
 //@   note open callback (engine wrapper + user code): reaches the connection only through its public methods, which preserve the monitor invariant; it cannot register the descriptor
 //@   ensures c.p == old(c.p) && c.fd == old(c.fd) && c.typ == old(c.typ) && c.p.g == old(c.p.g) && c.p.epfd == old(c.p.epfd)
-//@   ensures c.p.g.connsUnix == old(c.p.g.connsUnix) && c.p.g.Config.EpollMod == old(c.p.g.Config.EpollMod) && c.p.g.Config.EPOLLONESHOT == old(c.p.g.Config.EPOLLONESHOT)
+//@   ensures c.p.g.connsUnix == old(c.p.g.connsUnix) && c.p.g.Config.EpollMod == old(c.p.g.Config.EpollMod) && c.p.g.Config.EPOLLONESHOT == old(c.p.g.Config.EPOLLONESHOT) && c.p.g.Config.BodyAllocator == old(c.p.g.Config.BodyAllocator)
 //@   ensures kEv[c.fd] == old(kEv[c.fd]) && !holds(c.mux)
 //@   ensures !c.closed ==> QueueInv(c) && (len(c.writeList) > 0 ==> c.isWAdded)
 //@ fieldfunc nbio.Engine.onUDPListen
 //@   params c
 //@   havoc
 //@   ensures c.p == old(c.p) && c.fd == old(c.fd) && c.typ == old(c.typ) && c.p.g == old(c.p.g) && c.p.epfd == old(c.p.epfd)
-//@   ensures c.p.g.connsUnix == old(c.p.g.connsUnix) && c.p.g.Config.EpollMod == old(c.p.g.Config.EpollMod) && c.p.g.Config.EPOLLONESHOT == old(c.p.g.Config.EPOLLONESHOT)
+//@   ensures c.p.g.connsUnix == old(c.p.g.connsUnix) && c.p.g.Config.EpollMod == old(c.p.g.Config.EpollMod) && c.p.g.Config.EPOLLONESHOT == old(c.p.g.Config.EPOLLONESHOT) && c.p.g.Config.BodyAllocator == old(c.p.g.Config.BodyAllocator)
 //@   ensures kEv[c.fd] == old(kEv[c.fd]) && !holds(c.mux)
 //@   ensures !c.closed ==> QueueInv(c) && (len(c.writeList) > 0 ==> c.isWAdded)
-
-//@ func (*Conn).closeWithError
-//@   trusted
-//@   havoc
-//@   requires !holds(c.mux)
-//@   ensures c.closed && !holds(c.mux)
 
 //@ func (*poller).addConn
 //@   props C04
 //@   safety index slice nil div assert panic make lock lockset
-//@   requires p.g != nil && c != nil && c.fd >= 0 && !holds(c.mux) && kEv[c.fd] < 0
+//@   requires p.g != nil && p.g.Config.BodyAllocator != nil && c != nil && c.fd >= 0 && !holds(c.mux) && kEv[c.fd] < 0 && c.p == nil && c.writeList == nil && !c.gTok
 //@   ensures arm: result == nil && !c.closed ==> kEv[c.fd] >= 0 && ArmInv(c)                 // prop C04
 //@   assigns everything
 
@@ -350,3 +348,82 @@ package nbio
 //@   ensures rearm: cfgOneshot(c.p.g) && c.gSawQ ==> kMods[c.fd] > c.gMods0                                   // prop C04
 //@   assigns everything
 //@   at lock#1 ghost { c.gMods0 = kMods[c.fd]; c.gSawQ = !c.closed && kEv[c.fd] >= 0 }
+
+// ---- lifecycle (C03): the closed flag flips once, under the mutex; only the thread that flipped it tears down
+// Conn.gTok           (thread-local) this thread flipped closed from false to true and has not torn down yet
+// Conn.gClosedAtLock  (thread-local) value of closed when this thread last took the mutex
+// Conn.gNotified      close notifications delivered for this connection (written only by the token holder)
+// Conn.gEverClosed    (protected) closed has been observed true at an Unlock: it must stay true
+//@ ghost local Conn.gTok : Bool
+//@ ghost local Conn.gSentSnap : Int
+//@ ghost local Conn.gClosedAtLock : Bool
+//@ ghost Conn.gNotified : Int
+//@ ghost local Conn.gNotSnap : Int
+//@ ghost local Conn.gErrSnap : Iface
+
+//@ pred Registered(c *Conn) := c.p != nil ==> c.p.g != nil && 0 <= c.fd && c.fd < len(c.p.g.connsUnix)
+
+//@ fieldfunc nbio.Engine.onClose
+//@   params c err
+//@   havoc
+//@   note close callback (engine wrapper + user code): reaches the connection only through its public methods; no method clears closed, and only a token holder tears down
+//@   ensures c.closed == old(c.closed) && c.closeErr == old(c.closeErr) && c.gNotified == old(c.gNotified) && c.gTok == old(c.gTok) && c.writeList == old(c.writeList)
+//@   ensures c.p == old(c.p) && c.fd == old(c.fd) && c.typ == old(c.typ) && c.connUDP == old(c.connUDP) && !holds(c.mux)
+
+//@ func (*udpConn).Close
+//@   trusted
+//@   havoc
+//@   note UDP session teardown (closes children); not under contract
+//@   ensures forall x *Conn :: old(x.closed) ==> x.closed && x.closeErr == old(x.closeErr) && x.gNotified == old(x.gNotified) && x.gTok == old(x.gTok) && x.writeList == old(x.writeList) && x.typ == old(x.typ) && x.fd == old(x.fd) && x.p == old(x.p)
+
+//@ func (*poller).deleteConn
+//@   props C03
+//@   safety index slice nil div assert panic make
+//@   requires p.g != nil && c != nil && 0 <= c.fd && c.fd < len(p.g.connsUnix) && c.closed
+//@   ensures once: c.gNotified == old(c.gNotified) + ite(c.typ != ConnTypeUDPServer, 1, 0)        // prop C03
+//@   ensures keep: c.closed && c.closeErr == old(c.closeErr) && c.gTok == old(c.gTok) && c.writeList == old(c.writeList) && c.typ == old(c.typ) && c.fd == old(c.fd) && c.connUDP == old(c.connUDP) && c.p == old(c.p)   // prop C03
+//@   assigns everything
+//@   at before:onClose#1 assert cause: arg_err == c.closeErr                                      // prop C03
+//@   at call:onClose#1 ghost { c.gNotified = c.gNotified + 1 }
+
+//@ func (*Conn).closeWithErrorWithoutLock
+//@   props C03 C11
+//@   safety index slice nil div assert panic make
+//@   requires c.gTok && c.closed && Registered(c) && (c.writeList != nil ==> c.p != nil && c.p.g.Config.BodyAllocator != nil && QueueInv(c))
+//@   ensures consumed: !c.gTok                                                                     // prop C03
+//@   ensures once: c.gNotified == old(c.gNotified) + ite(c.p != nil && c.typ != ConnTypeUDPServer, 1, 0)   // prop C03
+//@   ensures cause: c.closeErr == err && c.closed                                                  // prop C03
+//@   ensures released: c.writeList == nil                                                          // prop C03 C11
+//@   ensures keep: c.p == old(c.p) && c.typ == old(c.typ)
+//@   assigns everything, c.gTok
+//@   at entry ghost { c.gTok = false }
+//@   loop 1
+//@     invariant c.closed && c.closeErr == err && c.p == old(c.p) && c.typ == old(c.typ) && c.fd == old(c.fd) && c.connUDP == old(c.connUDP) && c.writeList == old(c.writeList) && !c.gTok && c.gNotified == old(c.gNotified)
+//@     invariant -1 <= rangeindex && (rangeindex < len(c.writeList) || len(c.writeList) == 0)
+//@     invariant c.p != nil && c.p.g != nil && c.p.g.Config.BodyAllocator != nil && c.p.g.connsUnix == old(c.p.g.connsUnix) && c.p.g == old(c.p.g)
+//@     invariant forall p int {mem(c.writeList, p)} :: qlo(c) + rangeindex + 1 <= p && p < qhi(c) ==> mem(c.writeList, p) != nil && alloc(mem(c.writeList, p)) && (mem(c.writeList, p).buf != nil ==> liveP[mem(c.writeList, p).buf] && bufOwner[mem(c.writeList, p).buf] == mem(c.writeList, p))
+//@     invariant forall p int {mem(c.writeList, p)} :: qlo(c) <= p && p < qhi(c) ==> mem(c.writeList, p).gSeq == c.gSeq0 + p - qlo(c)
+
+//@ func (*Conn).closeWithError
+//@   props C03
+//@   safety index slice nil div assert panic make lock lockset
+//@   requires !holds(c.mux) && Registered(c) && (c.p != nil ==> c.p.g.Config.BodyAllocator != nil) && !c.gTok && (c.p == nil ==> c.writeList == nil)
+//@   ensures closed: c.closed && !holds(c.mux)                                                     // prop C03
+//@   ensures idem: c.gClosedAtLock ==> result == nil && c.gNotified == c.gNotSnap && c.closeErr == c.gErrSnap  // prop C03
+//@   ensures first: !c.gClosedAtLock ==> c.closeErr == err && c.gNotified == c.gNotSnap + ite(c.p != nil && c.typ != ConnTypeUDPServer, 1, 0)   // prop C03
+//@   assigns everything
+//@   at lock#1 ghost { c.gClosedAtLock = c.closed; c.gNotSnap = c.gNotified; c.gErrSnap = c.closeErr }
+//@   at before:closeWithErrorWithoutLock#1 ghost { c.gTok = !c.gClosedAtLock && c.closed }
+
+//@ func (*Conn).Close
+//@   props C03
+//@   safety index slice nil div assert panic make
+//@   requires !holds(c.mux) && Registered(c) && (c.p != nil ==> c.p.g.Config.BodyAllocator != nil) && !c.gTok && (c.p == nil ==> c.writeList == nil)
+//@   ensures closed: c.closed && !holds(c.mux)                                                     // prop C03
+//@   assigns everything
+//@ func (*Conn).CloseWithError
+//@   props C03
+//@   safety index slice nil div assert panic make
+//@   requires !holds(c.mux) && Registered(c) && (c.p != nil ==> c.p.g.Config.BodyAllocator != nil) && !c.gTok && (c.p == nil ==> c.writeList == nil)
+//@   ensures closed: c.closed && !holds(c.mux)                                                     // prop C03
+//@   assigns everything
